@@ -7,9 +7,12 @@ import (
 	"strings"
 	"time"
 
+	"github.com/prometheus/common/model"
 	"github.com/prometheus/prometheus/model/labels"
+	"github.com/prometheus/prometheus/model/relabel"
 
 	"github.com/thanos-io/thanos/pkg/store"
+	"github.com/thanos-io/thanos/pkg/store/labelpb"
 	"github.com/thanos-io/thanos/pkg/store/storepb"
 
 	"verif/harness/simkit"
@@ -17,9 +20,9 @@ import (
 
 // holdsMatch is the C05 model: does the store hold a series that satisfies the selectors and has a
 // sample inside [mint,maxt]? Returns the witness.
-func holdsMatch(st *mstore, ms []*labels.Matcher, mint, maxt int64) (string, bool) {
+func holdsMatch(st *mstore, ms []*labels.Matcher, mint, maxt int64, selected func(ser mseries) bool) (string, bool) {
 	for _, ser := range st.Series {
-		if !modelMatches(ms, ser.Full) {
+		if !modelMatches(ms, ser.Full) || (selected != nil && !selected(ser)) {
 			continue
 		}
 		for _, c := range ser.Chunks {
@@ -109,7 +112,28 @@ func runC05(x *simkit.Exec) {
 		reqs = append(reqs, r)
 	}
 	pc := proxyConf{Lazy: x.Bool("lazy", 1, 2), LazyBuf: 2, Timeout: 10 * time.Second}
-	x.Sample = map[string]any{"dataset": ds.describe(), "requests": len(reqs)}
+	// a third of the runs puts a TSDB selector in front of the stores: one keep or drop rule over an
+	// external label (e or r); label sets it drops are out of the query, the others must be answered in full
+	selDesc := "none"
+	if x.Bool("selector", 1, 3) {
+		name := []string{"e", "r"}[x.Draw("selector.label", 2)]
+		vals := map[string][]string{"e": eValues, "r": rValues}[name]
+		re := vals[x.Draw("selector.value", len(vals))]
+		if x.Bool("selector.two", 1, 3) {
+			re += "|" + vals[x.Draw("selector.value2", len(vals))]
+		}
+		action := []relabel.Action{relabel.Keep, relabel.Drop}[x.Draw("selector.action", 2)]
+		pc.Selector = []*relabel.Config{{SourceLabels: model.LabelNames{model.LabelName(name)}, Separator: ";", Regex: relabel.MustNewRegexp(re), Action: action, NameValidationScheme: model.UTF8Validation}}
+		selDesc = fmt.Sprintf("%s %s=~%q", action, name, re)
+	}
+	keptBySelector := func(ext labels.Labels) bool {
+		if pc.Selector == nil {
+			return true
+		}
+		_, keep := relabel.Process(ext, pc.Selector...)
+		return keep
+	}
+	x.Sample = map[string]any{"dataset": ds.describe(), "requests": len(reqs), "selector": selDesc}
 
 	x.Bubble("prune", func(s *simkit.Sim) {
 		cl := newCluster(s, ds, pc)
@@ -142,9 +166,11 @@ func runC05(x *simkit.Exec) {
 				}
 				n := cl.beginRequest()
 				var err error
+				var seriesSrv *collectServer
 				switch r.kind {
 				case "series":
 					srv := &collectServer{ctx: ctx}
+					seriesSrv = srv
 					err = cl.proxy.Series(&storepb.SeriesRequest{MinTime: r.mint, MaxTime: r.maxt, Matchers: matchersPB(r.ms...),
 						PartialResponseStrategy: storepb.PartialResponseStrategy_WARN}, srv)
 				case "label_names":
@@ -156,6 +182,57 @@ func runC05(x *simkit.Exec) {
 				}
 				if err != nil {
 					s.Probe("c05.request_error")
+				}
+				if r.kind == "series" && err == nil && seriesSrv != nil && len(seriesSrv.warnings) == 0 {
+					got := map[string]bool{}
+					for _, gs := range seriesSrv.series {
+						got[labelpb.ZLabelsToPromLabels(gs.Labels).String()] = true
+					}
+					for i, c := range cl.clients {
+						addr, _ := c.Addr()
+						if !eligible(addr) {
+							continue
+						}
+						if pc.Selector != nil && len(c.LabelSets()) == 0 {
+							// what a selector means for a store that advertises no label set is not defined by the
+							// property (thanos keeps it and still sends it the other stores' label-set matchers)
+							continue
+						}
+						for _, ser := range ds.Stores[i].Series {
+							if !modelMatches(r.ms, ser.Full) || !(len(c.LabelSets()) == 0 || keptBySelector(ser.Ext)) {
+								continue
+							}
+							inRange := false
+							for _, ch := range ser.Chunks {
+								for _, p := range ch.S {
+									inRange = inRange || (p.T >= r.mint && p.T <= r.maxt)
+								}
+							}
+							if inRange && !got[ser.Full.String()] {
+								sig := "series:missing:selector=" + fmt.Sprint(pc.Selector != nil)
+								// does the series carry a stored label named like an external label of some other
+								// advertised label set (while its own external labels lack that name)?
+								collides := false
+								for _, oc := range cl.clients {
+									for _, ls := range oc.LabelSets() {
+										ls.Range(func(l labels.Label) {
+											if ser.Stored.Has(l.Name) && !ser.Ext.Has(l.Name) {
+												collides = true
+											}
+										})
+									}
+								}
+								if collides {
+									sig += ":stored-label-named-like-an-external-label-elsewhere"
+								}
+								s.Violate("selected-series-returned", sig,
+									"series request matchers=%s range=[%d,%d] (selector: %s, store matchers %s) did not return %s, which %s holds (advertised label sets %v)\nstores: %v",
+									matchersString(r.ms), r.mint, r.maxt, selDesc, addrSetsString(r.addrSets), ser.Full, ds.Stores[i].Name, c.LabelSets(), ds.describe()["stores"])
+								return
+							}
+						}
+					}
+					s.Probe("c05.series_answer_complete")
 				}
 				skipped := 0
 				for i, c := range cl.clients {
@@ -175,7 +252,10 @@ func runC05(x *simkit.Exec) {
 						s.Probe("c05.store_skipped_by_address")
 						continue
 					}
-					if wit, holds := holdsMatch(st, r.ms, r.mint, r.maxt); holds {
+					// with a selector, only series of label sets it keeps count (a store that advertises no
+					// label set is kept as a whole)
+					selected := func(ser mseries) bool { return len(c.LabelSets()) == 0 || keptBySelector(ser.Ext) }
+					if wit, holds := holdsMatch(st, r.ms, r.mint, r.maxt, selected); holds {
 						advMin, advMax := c.TimeRange()
 						why := "labels"
 						if r.mint > advMax || r.maxt < advMin {
